@@ -132,6 +132,9 @@ type Exec struct {
 	HookFail  string   // StepHook reported an invariant violation
 
 	watch *time.Timer
+
+	// happens-before fingerprints (explore strategies "hb" and "dbc"); nil unless TrackHB
+	hb *hbState
 }
 
 var ex *Exec // nil => passthrough
@@ -164,9 +167,15 @@ func (e *Exec) ThreadName(tid int) string {
 // StepWatchdog is the wall-clock limit for a single step; exceeding it is an engine error.
 var StepWatchdog = 60 * time.Second
 
+// TrackHB makes executions maintain happens-before fingerprints (see hb.go).
+var TrackHB bool
+
 // Run executes body as thread 0 under chooser c.
 func Run(body func(), c Chooser, keepTrace bool, maxSteps int) *Exec {
 	e := &Exec{chans: map[uintptr]*chanState{}, native: map[uintptr]bool{}, back: make(chan *thread), ch: c, KeepTrace: keepTrace, MaxSteps: maxSteps}
+	if TrackHB {
+		e.hb = newHB()
+	}
 	ex = e
 	t0 := e.newThread("main", body)
 	e.start(t0, false)
@@ -206,6 +215,9 @@ func (e *Exec) waitBack() {
 func (e *Exec) newThread(name string, fn func()) *thread {
 	t := &thread{id: len(e.threads), name: name, wake: make(chan struct{}), fn: fn}
 	e.threads = append(e.threads, t)
+	if e.hb != nil {
+		e.hb.spawn(e.cur, t)
+	}
 	return t
 }
 
@@ -426,7 +438,15 @@ func (e *Exec) loop() {
 			return
 		}
 		t := e.threads[en[k]]
+		var hbOp *Op
+		if e.hb != nil {
+			hbOp = t.pending
+			e.hb.before(e)
+		}
 		e.apply(t)
+		if e.hb != nil {
+			e.hb.after(e, t, hbOp)
+		}
 		e.Steps++
 		cur = t.id
 		if e.Panic != nil {
@@ -868,6 +888,10 @@ func objsOf(op *Op) []any {
 // disable one another.
 func Independent(a, b *Op) bool {
 	if a == nil || b == nil {
+		return false
+	}
+	if a.Idle || b.Idle {
+		// enabled only at quiescence: any step of another thread may disable it
 		return false
 	}
 	if a.Kind == KSpawn || b.Kind == KSpawn || a.Kind == KStart || b.Kind == KStart {
